@@ -105,7 +105,7 @@ def collect(repo, f, env=None, depth=2, top_stmt=None, top_cond=TRUE, chain=()):
             args = [U(ex(a, st)) for a in bound.values()]
             out.append(Instance(callee.name, args, cond, top_stmt if top_stmt is not None else st,
                                 chain + (f.qual,)))
-        elif depth > 0 and kind in ('ctor', 'method'):
+        elif depth > 0 and (kind in ('ctor', 'method') or callee.module is f.module or 'valid' in callee.name):
             env2 = {p: (a if callee.defaults.get(p) is a else ex(a, st)) for p, a in bound.items()}
             out += collect(repo, callee, env2, depth - 1, top_stmt if top_stmt is not None else st, cond,
                            chain + (f.qual,))
